@@ -784,7 +784,11 @@ theorem lemma_bindMulti_meets_spec (P : Params) (hP : FloatSane P) (cfg : Cfg) (
           simp only [List.any_eq_true]
           exact ⟨a', ha', hm⟩
       · cases hphs : phasesOf fs srcs with
-        | nil => simp
+        | nil =>
+          rw [hphs] at hr
+          simp only [runPhases, Outcome.ok.injEq] at hr
+          subst hr
+          exact (lemma_val_beq_eq _ _).2 rfl
         | cons ph0 rest =>
           simp only [List.all_eq_true, List.mem_filter, List.any_eq_true, beq_iff_eq]
           rintro f ⟨hf0, hfr⟩
